@@ -123,3 +123,39 @@ Proof.
   intros A B0 eps Fq Hd Hu He Ha Hb.
   exact (proj2 (proj2 (fd_quotient_error_float _ _ d A B0 eps Fq Hd Hu He Ha Hb))).
 Qed.
+
+(* ---------------------------------------------------------------- non-vacuity: the identity on R^1 at x = 1 with the NON-dyadic step 0.1
+   (the binary64 number 0x1.999999999999ap-4): fl(1 + 0.1) = 1.1000000000000001, the difference 0.10000000000000009 is exact, the
+   entry is 1.0000000000000009 instead of 1 (error 4 u: the floor u |f| / delta with |f| ~ 1, delta ~ 0.1, eps = 0) *)
+From OV Require Import Proofs.ParDotFloat Proofs.Round2Lin.
+Definition exf_F (p : list PrimFloat.float) : res (list PrimFloat.float) := Ok p.
+Definition exf_x : list PrimFloat.float := [1%float].
+Definition exf_d : PrimFloat.float := 0x1.999999999999ap-4%float.
+
+Lemma exf_run : jacobian_tr OF exf_F exf_x exf_d =
+  Ok ([1%float], @mkM AF [0x1.0000000000004p+0%float] 1 1, [[1%float]; [0x1.199999999999ap+0%float]]).
+Proof. vm_compute. reflexivity. Qed.
+
+Lemma exf_diff : Dy (0x1.199999999999ap+0 - 1)%float 7205759403792800 (-56).
+Proof. dyw. Qed.
+Lemma exf_d_dy : Dy exf_d 7205759403792794 (-56).
+Proof. dyw. Qed.
+
+Lemma exf_conditions :
+  (forall k, (k < length exf_x)%nat -> ffinite (nth k [1%float] 0%float)) /\
+  ffinite ((0x1.199999999999ap+0 - 1) / exf_d)%float /\ FR exf_d <> 0 /\
+  no_underflow (FR (0x1.199999999999ap+0 - 1)%float / FR exf_d) /\
+  PrimFloat.ltb 1 ((0x1.199999999999ap+0 - 1) / exf_d)%float = true.
+Proof.
+  split; [|split; [|split; [|split]]].
+  - intros [|k] Hk; [apply ffinite_SF; vm_compute; reflexivity|cbn in Hk; lia].
+  - apply ffinite_SF. vm_compute. reflexivity.
+  - rewrite (Dy_FR _ _ _ exf_d_dy). simpl. lra.
+  - apply no_underflow_ge1. rewrite (Dy_FR _ _ _ exf_diff), (Dy_FR _ _ _ exf_d_dy). simpl.
+    rewrite Rabs_pos_eq; lra.
+  - vm_compute. reflexivity.
+Qed.
+
+(* named constants for the pinned statements *)
+Definition exf_J : matrix AF := @mkM AF [0x1.0000000000004p+0%float] 1 1.
+Definition exf_p0 : PrimFloat.float := 0x1.199999999999ap+0%float.
